@@ -132,6 +132,7 @@ def run(ctx):
     repo = ctx.repo
     _phased_x_export(ctx, repo)
     _condition_export_covers_fields(ctx, repo)
+    _qudit_gates_refused(ctx, repo)
     ctx.decided += [
         'C19.a emitted QASM of the table-defined gate families == gate matrix up to global phase (probe exponents/shifts; qelib1 semantics held in the checker)',
         'C19.b every mnemonic in every _qasm_ format string exists in qelib1/stdgates with that parameter and operand count; operands distinct; angles printed as half turns',
@@ -888,3 +889,41 @@ def _condition_export_covers_fields(ctx, repo):
                    f'the exported condition never looks at `{fl}`: two conditions that differ in it are written as the same QASM test', ci.mod.rel, (fn or qp).lineno)
     if n == 0:
         raise AnalysisError('C19.j: no Condition class with a QASM export found')
+
+
+def _qudit_gates_refused(ctx, repo, rid='C19.k'):
+    """A gate class that can be a qudit gate (its constructor takes a dimension / qid shape) looks at it before it answers with qubit QASM."""
+    from .. import fields as F
+    ctx.decided.append(f'{rid} every _qasm_ of a class whose constructor takes `dimension` / `qid_shape` reads that field (QASM has qubit registers only)')
+    ctx.rule(rid, 'qudits are not exported as qubits: for every class that defines _qasm_ and whose constructor (own or inherited) has a `dimension` or `qid_shape` parameter, _qasm_ reads '
+             'the field that parameter is stored in - an XPowGate(dimension=3) is otherwise written as `x q[0];`, a different gate on a different space, without any error', floor=4, style='COH')
+    n = 0
+    for ci in sorted(repo.classes.values(), key=lambda c: c.qual):
+        if ci.mod.rel.endswith('_test.py') or '/testing/' in ci.mod.rel or '/contrib/' in ci.mod.rel:
+            continue
+        fn = ci.methods.get('_qasm_')
+        if fn is None:
+            continue
+        init = None
+        for c in repo.mro(ci):
+            if '__init__' in c.methods:
+                init, owner = c.methods['__init__'], c
+                break
+        if init is None:
+            continue
+        dparams = [a.arg for a in init.args.args + init.args.kwonlyargs if a.arg in ('dimension', 'qid_shape')]
+        if not dparams:
+            continue
+        p2f = F.init_param_to_field(repo, owner)
+        flds = set()
+        for p in dparams:
+            flds |= {f for f in p2f.get(p, ()) if '.' not in f}
+        if not flds:
+            continue
+        rd = F.self_reads(repo, ci, fn, depth=2)
+        n += 1
+        ok = bool(flds & rd) or any(F.norm_field(repo, ci, f.lstrip('_')) in rd for f in flds) or any(f.lstrip('_') in {r.lstrip('_') for r in rd} for f in flds)
+        ctx.ob(rid, f'{ci.qual}._qasm_:reads-dimension', ok, '' if ok else
+               f'the class can be built with {dparams} (stored in {sorted(flds)}), but _qasm_ never looks at it: a qudit gate is written as the qubit gate of the same name', ci.mod.rel, fn.lineno)
+    if n == 0:
+        raise AnalysisError(f'{rid}: no qudit-capable class with _qasm_ found')
